@@ -9,7 +9,7 @@ import attrs
 
 from .. import impl
 from ..explore import explore_roots, get_mm, root_class
-from ..mm import ref, json_eq, snake, ANY_ALIASES, is_num, canon
+from ..mm import ref, json_eq, snake, ANY_ALIASES, is_num, canon, is_null_type
 from ..runner import Result, Violation
 
 PROP = "C03"
@@ -383,6 +383,109 @@ def _collision_task(args):
     return n, vs
 
 
+class _Poison:
+    def __repr__(self):
+        return "<verif poison>"
+
+
+def _aliasing_task(_):
+    """Freshly forked process.  History: structure every pool value; the application then *edits the results it
+    received* (appends to every list, adds a key to every dict of the object graphs); every pool value is structured
+    again.  No later result may contain what was put into an earlier one - a result is converted from its input."""
+    import copy as _copy
+    from . import c14
+    from ..vse import VSE
+    mm = get_mm()
+    vse = VSE(mm)
+    conv = impl.converter()
+    pool = []
+    seen = set()
+    for ok, on, path, ort, via in c14.union_sites(mm):
+        roots = [r for r in c14.roots_for_site(mm, ok, on, path) if root_class(r[0]) is not None and r[0] not in mm.aliases][:1]
+        for alt in ort["items"]:
+            if is_null_type(alt):
+                continue
+            vals = [v for c, v in vse.enum(alt, 0)]
+            t = alt
+            hops = 0
+            while t["kind"] == "reference" and t["name"] in mm.aliases and hops < 8:
+                t = mm.aliases[t["name"]]["type"]
+                hops += 1
+            if t["kind"] == "array":
+                vals.append([])
+            if t["kind"] == "map":
+                vals.append({})
+            for v in vals:
+                for rname, rt, rpath in roots:
+                    j = c14.embed(mm, vse, rt, rpath, v)
+                    if j is None or not mm.valid(j, rt, True):
+                        continue
+                    k = rname + canon(j)
+                    if k not in seen:
+                        seen.add(k)
+                        pool.append((rname, j))
+    poison = _Poison()
+
+    def walk(o, fn, depth=0, visited=None):
+        visited = visited if visited is not None else set()
+        if id(o) in visited or depth > 40:
+            return
+        visited.add(id(o))
+        if isinstance(o, list):
+            for x in list(o):
+                walk(x, fn, depth + 1, visited)
+            fn(o)
+        elif isinstance(o, tuple):
+            for x in o:
+                walk(x, fn, depth + 1, visited)
+        elif isinstance(o, dict):
+            for x in list(o.values()):
+                walk(x, fn, depth + 1, visited)
+            fn(o)
+        elif attrs.has(type(o)):
+            for a in attrs.fields(type(o)):
+                walk(getattr(o, a.name, None), fn, depth + 1, visited)
+
+    def taint(c):
+        try:
+            if isinstance(c, list):
+                c.append(poison)
+            else:
+                c["__verif_poison__"] = poison
+        except Exception:  # noqa: BLE001 - immutable container types
+            pass
+
+    first = []
+    for rname, j in pool:
+        try:
+            first.append(conv.structure(_copy.deepcopy(j), root_class(rname)))     # LSPAny payloads are passed through: never share the pool value
+        except Exception:  # noqa: BLE001 - C01's subject
+            first.append(None)
+    for o in first:
+        if o is not None:
+            walk(o, taint)
+    vs = []
+    n = len(pool)
+    for rname, j in pool:
+        n += 1
+        try:
+            o2 = conv.structure(_copy.deepcopy(j), root_class(rname))
+        except Exception:  # noqa: BLE001
+            continue
+        found = []
+
+        def look(c):
+            if isinstance(c, list) and any(x is poison for x in c) or isinstance(c, dict) and "__verif_poison__" in c:
+                found.append(type(c).__name__)
+        walk(o2, look)
+        if found:
+            vs.append(Violation(PROP, "foreign-value", rname, "%s structured from %s contains an object that the application had put into an EARLIER result "
+                                "(a mutable container is shared between results)" % (rname, canon(j)[:120]),
+                                {"engine": "HIST", "root": rname, "input": j, "history": ["structure all pool values", "edit the results", "structure again"],
+                                 "observed": found[:3]}, node=j, extra="shared-container"))
+    return n, vs
+
+
 def run(ctx):
     mm = get_mm()
     res = Result()
@@ -398,6 +501,10 @@ def run(ctx):
     collision_execs = sum(p[0] for p in cparts)
     for p in cparts:
         res.merge_violations(p[1])
+    with _mp.get_context("fork").Pool(1, maxtasksperchild=1) as pool:
+        alias_execs, alias_viols = pool.map(_aliasing_task, [0])[0]
+    res.merge_violations(alias_viols)
+    collision_execs += alias_execs
     opts = {"cap_s": 900 if ctx.thorough else 120}
     a, v = explore_roots(ctx, judge, roots, kmin, kmax, opts)
     res.merge_violations(v)
@@ -434,8 +541,10 @@ def run(ctx):
         "distinct_nontrivial": a["distinct_nt"],
         "rule": "every VSE derivation of every root is structured; the object graph is walked against the resolved attrs "
                 "annotations and, in lock-step with the input, against the metamodel (union positions: an alternative valid for the input); plus "
-                "every union site x alternative x shape of C14 (heterogeneous arrays, maximal alternatives) embedded in its owner root",
-        "union_site_executions": site_execs, "shape_collision_groups": len(groups), "shape_collision_executions": collision_execs, "testdata_true_vectors_walked": c_evals,
+                "every union site x alternative x shape of C14 (heterogeneous arrays, maximal alternatives) embedded in its owner root; "
+                "history: all union-site minimal values (and empty arrays / maps) structured, every list / dict of the results edited, all structured again: "
+                "nothing put into an earlier result may show up in a later one",
+        "union_site_executions": site_execs, "shape_collision_groups": len(groups), "shape_collision_executions": collision_execs, "result_aliasing_history_executions": alias_execs, "testdata_true_vectors_walked": c_evals,
         "roots": a["roots"], "bounds": {"min_base_k": kmin, "max_base_k": kmax},
         "outcome_classes": a["outcomes"], "attrs_fields_checked_resolved": nfields,
         "capped_roots": a["capped"], "exhaustive": not a["capped"], "samples": a["samples"],
